@@ -241,3 +241,17 @@ decoder(
     asserts={"prev = data[start - 1]": {"the-match-is-printable-ascii": "matches(rb'[!-~]*', group)"}},
     hints={"normalized, obfuscation =": ["printable-slice: x=match.group(); a=0; b=prev", "printable-slice: x=match.group(); a=0; b=close"]},
 )
+
+
+# ---- the languages of the indicator patterns (C11): see the pins in contracts/decoders.py; look-behinds / look-aheads are erased on both sides
+def pin(qualname, **pins):
+    from pyvc.contract import CONTRACTS
+
+    CONTRACTS[qualname].pins.update(pins)
+
+
+OCT = rb"(?:0x0*[0-9a-f]{1,2}|0*[0-9]{1,3})"
+DOM = rb"(?:[a-z0-9-]+[.])+(?:xn--[a-z0-9]{4,18}|[a-z]{2,12})"
+pin("multidecoder.decoders.network.find_ips", IP_RE=rb"(?i)" + OCT + rb"[.]" + OCT + rb"[.]" + OCT + rb"[.]" + OCT)
+pin("multidecoder.decoders.network.find_domains", DOMAIN_RE=rb"(?i)" + DOM)
+pin("multidecoder.decoders.network.find_emails", EMAIL_RE=rb"(?i)[a-z0-9._%+-]{3,}@" + DOM)
